@@ -170,3 +170,36 @@ func VerifActiveSingleHost() {
 	verif.Assert("single-host-reported", got.Has(verifAHosts[0]))
 	verif.Assert("single-host-only", len(got) == 1)
 }
+
+// VerifActiveRunSchedules: a round of Filter.Run under every schedule of its
+// per-host check goroutines (free choice at blocking / exit switches plus
+// preemptions) gives the same answer as the hysteresis and never deadlocks.
+// A first round (fixed schedule) creates some history.
+func VerifActiveRunSchedules() {
+	verifASched()
+	fails := verif.IntRange("fails", 1, 2)
+	passes := verif.IntRange("passes", 1, 2)
+	ck := &verifAChecker{fail: map[string]bool{}, seen: map[string]int{}}
+	f := NewFilter(FilterConfig{Fails: fails, Passes: passes}, ck)
+	ghost := make([]verifAGhost, 2)
+	addrs := stringset.New(verifAHosts[0], verifAHosts[1])
+	for r := 0; r < 2; r++ {
+		if r == 1 {
+			verif.Option("sched_fixed", 0)
+			verif.Option("max_preempt", verif.Bound("preemptions", 0, 1))
+			ck.fail[verifAHosts[0]] = verif.Bool("a_fails")
+			ck.fail[verifAHosts[1]] = verif.Bool("b_fails")
+		} else {
+			ck.fail[verifAHosts[0]] = true
+			ck.fail[verifAHosts[1]] = false
+		}
+		got := f.Run(addrs)
+		for h := 0; h < 2; h++ {
+			ghost[h].step(ck.fail[verifAHosts[h]], fails, passes)
+			verif.Assert("reported-iff-healthy-under-any-schedule", got.Has(verifAHosts[h]) == ghost[h].healthy)
+		}
+	}
+	ck.mu.Lock()
+	verif.Assert("each-host-checked-once-per-round", ck.seen[verifAHosts[0]] == 2 && ck.seen[verifAHosts[1]] == 2)
+	ck.mu.Unlock()
+}
